@@ -103,39 +103,78 @@ Proof.
 Qed.
 
 (* ------------------------------------------------------------------ millisecond counts as clocks *)
+(* the hour field is as wide as the writer prints it *)
 Definition clock_of (ms : Z) : clock :=
-  mkClock (ms / 3600000) (100 <=? ms / 3600000) ((ms / 60000) mod 60) ((ms / 1000) mod 60) (ms mod 1000).
+  mkClock (ms / 3600000) (length (whours (ms / 3600000))) ((ms / 60000) mod 60) ((ms / 1000) mod 60) (ms mod 1000).
 
-Lemma digits3 h : 100 <= h <= 999 -> digits_fuel 12 10 h [] = pad3 h.
+(* the decimal digits of n, given enough fuel, are n written with w digits for the w that n needs *)
+Lemma digits_fuel_padn fuel : forall n acc, (1 <= fuel)%nat -> 0 <= n < 10 ^ Z.of_nat fuel ->
+  exists w, (1 <= w)%nat /\ digits_fuel fuel 10 n acc = padn w n ++ acc /\ n < 10 ^ Z.of_nat w /\
+            (w = 1%nat \/ 10 ^ (Z.of_nat w - 1) <= n).
 Proof.
-  intro H. unfold pad3, dig. cbn [digits_fuel].
-  replace (h / 10 =? 0) with false by lia.
-  replace (h / 10 / 10 =? 0) with false by lia.
-  replace (h / 10 / 10 / 10 =? 0) with true by lia.
-  replace (h mod 10 <? 10) with true by lia.
-  replace (h / 10 mod 10 <? 10) with true by lia.
-  replace (h / 10 / 10 mod 10 <? 10) with true by lia.
-  assert (E1 : h / 10 / 10 mod 10 = h / 100) by (rewrite Z.div_div by lia; change (10 * 10) with 100; lia).
-  assert (E2 : h / 10 mod 10 = h / 10 mod 10) by reflexivity.
-  rewrite E1. reflexivity.
+  induction fuel as [|k IH]; intros n acc F H; [lia|].
+  - rewrite Nat2Z.inj_succ, Z.pow_succ_r in H by lia. cbn [digits_fuel].
+    replace (n mod 10 <? 10) with true by lia. cbn iota.
+    destruct (n / 10 =? 0) eqn:E.
+    + exists 1%nat. cbn [padn app]. unfold dig. repeat split; auto. change (Z.of_nat 1) with 1. lia.
+    + assert (1 <= k)%nat.
+      { destruct k; [|lia]. change (Z.of_nat 0) with 0 in H. rewrite Z.pow_0_r in H. lia. }
+      destruct (IH (n / 10) ((48 + n mod 10) :: acc)) as (w & W1 & W2 & W3 & W4); [lia|lia|].
+      exists (S w). split; [lia|]. split; [|split].
+      * rewrite W2. cbn [padn]. unfold dig. rewrite <- app_assoc. reflexivity.
+      * rewrite Nat2Z.inj_succ, Z.pow_succ_r by lia. lia.
+      * right. replace (Z.of_nat (S w) - 1) with (Z.of_nat w) by lia.
+        destruct W4 as [W4|W4].
+        -- subst w. change (Z.of_nat 1) with 1. lia.
+        -- replace (Z.of_nat w) with (Z.succ (Z.of_nat w - 1)) by lia. rewrite Z.pow_succ_r by lia. lia.
 Qed.
 
-Definition in_range (ms : Z) : Prop := 0 <= ms < 3600000000.
+Lemma log2_fuel h : 0 < h -> h < 10 ^ Z.of_nat (S (Z.to_nat (Z.log2 h))).
+Proof.
+  intro H. pose proof (Z.log2_nonneg h) as L. destruct (Z.log2_spec h H) as [_ U].
+  rewrite Nat2Z.inj_succ, Z2Nat.id by lia.
+  assert (2 ^ Z.succ (Z.log2 h) <= 10 ^ Z.succ (Z.log2 h)) by (apply Z.pow_le_mono_l; lia). lia.
+Qed.
+
+Lemma pow10_small w : (w <= 2)%nat -> 10 ^ Z.of_nat w <= 100.
+Proof. intro H. destruct w as [|[|[|w]]]; try lia; vm_compute; discriminate. Qed.
+
+(* what the writer prints for the hour is the hour written with some width w >= 2 that holds it *)
+Lemma whours_padn h : 0 <= h ->
+  exists w, (2 <= w)%nat /\ whours h = padn w h /\ h < 10 ^ Z.of_nat w.
+Proof.
+  intro H. unfold whours. destruct (h <? 100) eqn:E.
+  - exists 2%nat. split; [lia|]. split.
+    + unfold pad2. cbn [padn app]. replace (h / 10 mod 10) with (h / 10) by lia. reflexivity.
+    + change (10 ^ Z.of_nat 2) with 100. lia.
+  - destruct (digits_fuel_padn (S (Z.to_nat (Z.log2 h))) h []) as (w & W1 & W2 & W3 & W4).
+    { lia. } { split; [lia|]. apply log2_fuel. lia. }
+    exists w. rewrite W2, app_nil_r.
+    assert (2 < w)%nat.
+    { destruct (Nat.le_gt_cases w 2) as [S|S]; [|lia]. pose proof (pow10_small w S). lia. }
+    split; [lia|]. split; [reflexivity|exact W3].
+Qed.
+
+Lemma padn_length w : forall n, length (padn w n) = w.
+Proof. induction w as [|w IH]; intro n; cbn [padn]; [reflexivity|]. rewrite app_length, IH. cbn [length]. lia. Qed.
+
+Definition in_range (ms : Z) : Prop := 0 <= ms /\ Z.of_nat (length (whours (ms / 3600000))) <= max_hour_digits.
+Lemma wtime_in_range ms : wtime_ok ms = true -> in_range ms.
+Proof. unfold wtime_ok, in_range. lia. Qed.
 
 Lemma wclock_print ms : in_range ms -> print_clock (clock_of ms) = wclock ms.
 Proof.
-  intro R. unfold in_range in R. unfold print_clock, clock_of, wclock, whours. cbn [k_wide k_h k_m k_s k_ms].
-  assert (Hh : 0 <= ms / 3600000 <= 999) by lia.
-  destruct (100 <=? ms / 3600000) eqn:E.
-  - replace (ms / 3600000 <? 100) with false by lia. rewrite digits3 by lia. reflexivity.
-  - replace (ms / 3600000 <? 100) with true by lia. reflexivity.
+  intros [R _]. unfold print_clock, clock_of, wclock. cbn [k_hw k_h k_m k_s k_ms].
+  destruct (whours_padn (ms / 3600000)) as (w & _ & W & _); [lia|].
+  rewrite W at 1. rewrite padn_length, <- W. reflexivity.
 Qed.
 
 Lemma wf_clock_of ms : in_range ms -> wf_clock (clock_of ms) = true.
 Proof.
-  intro R. unfold in_range in R. unfold wf_clock, clock_of. cbn [k_wide k_h k_m k_s k_ms].
-  assert (Hh : 0 <= ms / 3600000 <= 999) by lia.
-  destruct (100 <=? ms / 3600000) eqn:E; lia.
+  intros [R B]. unfold wf_clock, clock_shape, clock_of. cbn [k_hw k_h k_m k_s k_ms].
+  destruct (whours_padn (ms / 3600000)) as (w & W1 & W & W3); [lia|].
+  rewrite W, padn_length in *.
+  apply Nat.leb_le in W1. rewrite W1. cbn [andb]. lia.
 Qed.
 
 Lemma clock_fields_sum ms : 0 <= ms ->
@@ -167,20 +206,22 @@ Definition embed_file (cs : list wcue) : file_src := mkFile [] (embed_cues cs) f
 Definition cue_in_range (c : wcue) : Prop := in_range (wc_begin c) /\ in_range (wc_end c).
 
 Lemma wwf_cue_fields c : wwf_cue c = true ->
-  wc_counter c <> [] /\ forallb is_dec (wc_counter c) = true /\ 0 <= wc_begin c /\ 0 <= wc_end c /\
+  wc_counter c <> [] /\ forallb is_dec (wc_counter c) = true /\ in_range (wc_begin c) /\ in_range (wc_end c) /\
   forallb wwf_node (wc_payload c) = true /\
   forallb (fun l => negb (all_ws l)) (split_at_lf (wprint_nodes (wc_payload c)) []) = true.
 Proof.
-  unfold wwf_cue. intro W. repeat (apply andb_true_iff in W as [W ?]).
-  repeat split; auto; try lia. destruct (wc_counter c); [discriminate|discriminate].
+  unfold wwf_cue. intro W.
+  apply andb_true_iff in W as [W F6]. apply andb_true_iff in W as [W F5]. apply andb_true_iff in W as [W F4].
+  apply andb_true_iff in W as [W F3]. apply andb_true_iff in W as [F1 F2].
+  split; [destruct (wc_counter c); [discriminate|discriminate]|].
+  split; [exact F2|]. split; [apply wtime_in_range; exact F3|]. split; [apply wtime_in_range; exact F4|]. split; assumption.
 Qed.
 
-Lemma range_of_trigger cs : wwf cs = true -> trigger_hours_1000 cs = false -> Forall cue_in_range cs.
+Lemma range_of_wwf cs : wwf cs = true -> Forall cue_in_range cs.
 Proof.
-  unfold wwf, trigger_hours_1000. induction cs as [|c cs IH]; intros W T; [constructor|].
-  cbn [forallb existsb] in *. apply andb_true_iff in W as [W1 W2]. apply orb_false_iff in T as [T1 T2].
-  constructor; auto. destruct (wwf_cue_fields c W1) as (_ & _ & B1 & B2 & _).
-  unfold cue_in_range, in_range. lia.
+  unfold wwf. induction cs as [|c cs IH]; intros W; [constructor|].
+  cbn [forallb] in *. apply andb_true_iff in W as [W1 W2].
+  constructor; auto. destruct (wwf_cue_fields c W1) as (_ & _ & B1 & B2 & _). split; assumption.
 Qed.
 
 Lemma digits_no_eol_dec l : forallb is_dec l = true -> no_eol l = true.
@@ -257,7 +298,7 @@ Proof.
   intro W. destruct (wwf_cue_fields c W) as (F1 & F2 & F3 & F4 & F5 & F6).
   destruct (embed_facts (wc_payload c) F5) as (_ & _ & _ & D).
   unfold cue_of, embed_cue, wmeaning. cbn [c_begin c_end c_payload].
-  rewrite !clock_seconds_of by lia. rewrite D. reflexivity.
+  rewrite !clock_seconds_of by (destruct F3, F4; assumption). rewrite D. reflexivity.
 Qed.
 Lemma embed_cues_meaning cs : wwf cs = true -> map cue_of (embed_cues cs) = map wmeaning cs.
 Proof.
@@ -270,10 +311,11 @@ Proof.
 Qed.
 
 (* ------------------------------------------------------------------ reading the writer's output *)
-Theorem writer_roundtrip cs : wwf cs = true -> trigger_hours_1000 cs = false ->
+(* no trigger: every text of the form the writer emits, whatever the width of its hour fields *)
+Theorem writer_roundtrip cs : wwf cs = true ->
   read_cues (wprint cs) = Ok (map wmeaning cs) /\ read_cues_file (wprint cs) = Ok (map wmeaning cs).
 Proof.
-  intros W T. pose proof (range_of_trigger cs W T) as R.
+  intros W. pose proof (range_of_wwf cs W) as R.
   rewrite <- (embed_print cs W R).
   rewrite roundtrip_stream_full, roundtrip_file_full by (apply embed_file_wf; auto).
   unfold cues, embed_file. cbn [f_cues]. rewrite embed_cues_meaning by auto. auto.
